@@ -16,13 +16,13 @@ inline double gdist(Rng& r, double a) {
   return a * r.uniform(-8, 8);
 }
 
-template <class G, G Shared::*M> void add_geod(const std::string& pre, const std::string& cls) {
+template <class G, Lazy<G> Shared::*M> void add_geod(const std::string& pre, const std::string& cls) {
   add(pre + ".inverse.all", cls, 2, true, [](const Shared* S, Rng& r, Res& o, int pv) {
-    const G& g = S->*M; Pair p = gpair(r); real s12, azi1, azi2, m12, M12, M21, S12;
+    const G& g = (S->*M)(); Pair p = gpair(r); real s12, azi1, azi2, m12, M12, M21, S12;
     real a12 = g.Inverse(p.lat1, p.lon1, p.lat2, p.lon2, s12, azi1, azi2, m12, M12, M21, S12);
     o.d(a12); o.d(s12); o.d(azi1); o.d(azi2); o.d(m12); o.d(M12); o.d(M21); o.d(S12); });
   add(pre + ".inverse.overloads", cls, 1, true, [](const Shared* S, Rng& r, Res& o, int pv) {
-    const G& g = S->*M; Pair p = gpair(r); real s12, azi1, azi2, m12, M12, M21;
+    const G& g = (S->*M)(); Pair p = gpair(r); real s12, azi1, azi2, m12, M12, M21;
     o.d(g.Inverse(p.lat1, p.lon1, p.lat2, p.lon2, s12)); o.d(s12);
     o.d(g.Inverse(p.lat1, p.lon1, p.lat2, p.lon2, azi1, azi2)); o.d(azi1); o.d(azi2);
     o.d(g.Inverse(p.lat1, p.lon1, p.lat2, p.lon2, s12, azi1, azi2)); o.d(s12);
@@ -30,17 +30,17 @@ template <class G, G Shared::*M> void add_geod(const std::string& pre, const std
     o.d(g.Inverse(p.lat1, p.lon1, p.lat2, p.lon2, s12, azi1, azi2, M12, M21)); o.d(M12); o.d(M21);
     o.d(g.Inverse(p.lat1, p.lon1, p.lat2, p.lon2, s12, azi1, azi2, m12, M12, M21)); });
   add(pre + ".geninverse.mask", cls, 1, true, [](const Shared* S, Rng& r, Res& o, int pv) {
-    const G& g = S->*M; Pair p = gpair(r); unsigned m = gmask(r);
+    const G& g = (S->*M)(); Pair p = gpair(r); unsigned m = gmask(r);
     real s12 = -1, azi1 = -2, azi2 = -3, m12 = -4, M12 = -5, M21 = -6, S12 = -7;
     o.d(g.GenInverse(p.lat1, p.lon1, p.lat2, p.lon2, m, s12, azi1, azi2, m12, M12, M21, S12));
     o.d(s12); o.d(azi1); o.d(azi2); o.d(m12); o.d(M12); o.d(M21); o.d(S12); });
   add(pre + ".direct.all", cls, 2, true, [](const Shared* S, Rng& r, Res& o, int pv) {
-    const G& g = S->*M; real lat1 = glat(r), lon1 = glon(r), azi1 = gazi(r), s12 = gdist(r, g.EquatorialRadius());
+    const G& g = (S->*M)(); real lat1 = glat(r), lon1 = glon(r), azi1 = gazi(r), s12 = gdist(r, g.EquatorialRadius());
     real lat2, lon2, azi2, m12, M12, M21, S12;
     o.d(g.Direct(lat1, lon1, azi1, s12, lat2, lon2, azi2, m12, M12, M21, S12));
     o.d(lat2); o.d(lon2); o.d(azi2); o.d(m12); o.d(M12); o.d(M21); o.d(S12); });
   add(pre + ".direct.overloads", cls, 1, true, [](const Shared* S, Rng& r, Res& o, int pv) {
-    const G& g = S->*M; real lat1 = glat(r), lon1 = glon(r), azi1 = gazi(r), s12 = gdist(r, g.EquatorialRadius());
+    const G& g = (S->*M)(); real lat1 = glat(r), lon1 = glon(r), azi1 = gazi(r), s12 = gdist(r, g.EquatorialRadius());
     real lat2, lon2, azi2, m12, M12, M21;
     o.d(g.Direct(lat1, lon1, azi1, s12, lat2, lon2)); o.d(lat2); o.d(lon2);
     o.d(g.Direct(lat1, lon1, azi1, s12, lat2, lon2, azi2)); o.d(azi2);
@@ -48,27 +48,27 @@ template <class G, G Shared::*M> void add_geod(const std::string& pre, const std
     o.d(g.Direct(lat1, lon1, azi1, s12, lat2, lon2, azi2, M12, M21)); o.d(M12); o.d(M21);
     o.d(g.Direct(lat1, lon1, azi1, s12, lat2, lon2, azi2, m12, M12, M21)); });
   add(pre + ".arcdirect.all", cls, 1, true, [](const Shared* S, Rng& r, Res& o, int pv) {
-    const G& g = S->*M; real lat1 = glat(r), lon1 = glon(r), azi1 = gazi(r), a12 = r.coin(0.2) ? pk(r, {0.0, 90.0, 180.0, 360.0, -90.0}) : r.uniform(-720, 720);
+    const G& g = (S->*M)(); real lat1 = glat(r), lon1 = glon(r), azi1 = gazi(r), a12 = r.coin(0.2) ? pk(r, {0.0, 90.0, 180.0, 360.0, -90.0}) : r.uniform(-720, 720);
     real lat2, lon2, azi2, s12, m12, M12, M21, S12;
     g.ArcDirect(lat1, lon1, azi1, a12, lat2, lon2, azi2, s12, m12, M12, M21, S12);
     o.d(lat2); o.d(lon2); o.d(azi2); o.d(s12); o.d(m12); o.d(M12); o.d(M21); o.d(S12);
     g.ArcDirect(lat1, lon1, azi1, a12, lat2, lon2); o.d(lat2); o.d(lon2);
     g.ArcDirect(lat1, lon1, azi1, a12, lat2, lon2, azi2, s12); o.d(s12); });
   add(pre + ".gendirect.mask", cls, 1, true, [](const Shared* S, Rng& r, Res& o, int pv) {
-    const G& g = S->*M; real lat1 = glat(r), lon1 = glon(r), azi1 = gazi(r); bool arc = r.coin();
+    const G& g = (S->*M)(); real lat1 = glat(r), lon1 = glon(r), azi1 = gazi(r); bool arc = r.coin();
     real s = arc ? r.uniform(-720, 720) : gdist(r, g.EquatorialRadius()); unsigned m = gmask(r);
     real lat2 = -1, lon2 = -2, azi2 = -3, s12 = -4, m12 = -5, M12 = -6, M21 = -7, S12 = -8;
     o.d(g.GenDirect(lat1, lon1, azi1, arc, s, m, lat2, lon2, azi2, s12, m12, M12, M21, S12));
     o.d(lat2); o.d(lon2); o.d(azi2); o.d(s12); o.d(m12); o.d(M12); o.d(M21); o.d(S12); });
   add(pre + ".line.position", cls, 1, true, [](const Shared* S, Rng& r, Res& o, int pv) {
-    const G& g = S->*M; real lat1 = glat(r), lon1 = glon(r), azi1 = gazi(r);
+    const G& g = (S->*M)(); real lat1 = glat(r), lon1 = glon(r), azi1 = gazi(r);
     auto l = r.coin() ? g.Line(lat1, lon1, azi1) : g.Line(lat1, lon1, azi1, gmask(r) | Geodesic::DISTANCE_IN);
     real lat2 = -1, lon2 = -2, azi2 = -3, m12 = -5, M12 = -6, M21 = -7, S12 = -8;
     for (int k = 0; k < 3; ++k) {
       o.d(l.Position(gdist(r, g.EquatorialRadius()), lat2, lon2, azi2, m12, M12, M21, S12));
       o.d(lat2); o.d(lon2); o.d(azi2); o.d(m12); o.d(M12); o.d(M21); o.d(S12); } });
   add(pre + ".inverseline", cls, 1, true, [](const Shared* S, Rng& r, Res& o, int pv) {
-    const G& g = S->*M; Pair p = gpair(r);
+    const G& g = (S->*M)(); Pair p = gpair(r);
     auto l = r.coin() ? g.InverseLine(p.lat1, p.lon1, p.lat2, p.lon2) : g.InverseLine(p.lat1, p.lon1, p.lat2, p.lon2, gmask(r) | Geodesic::DISTANCE_IN);
     real lat2 = -1, lon2 = -2, azi2 = -3, m12 = -5, M12 = -6, M21 = -7, S12 = -8;
     o.d(l.Distance()); o.d(l.Arc()); o.d(l.Azimuth());
@@ -76,7 +76,7 @@ template <class G, G Shared::*M> void add_geod(const std::string& pre, const std
     o.d(lat2); o.d(lon2); o.d(azi2); o.d(m12); o.d(M12); o.d(M21); o.d(S12);
     l.ArcPosition(l.Arc(), lat2, lon2); o.d(lat2); o.d(lon2); });
   add(pre + ".directline", cls, 1, true, [](const Shared* S, Rng& r, Res& o, int pv) {
-    const G& g = S->*M; real lat1 = glat(r), lon1 = glon(r), azi1 = gazi(r);
+    const G& g = (S->*M)(); real lat1 = glat(r), lon1 = glon(r), azi1 = gazi(r);
     int k = r.range(0, 2);
     auto l = k == 0 ? g.DirectLine(lat1, lon1, azi1, gdist(r, g.EquatorialRadius()))
            : k == 1 ? g.ArcDirectLine(lat1, lon1, azi1, r.uniform(-400, 400))
@@ -85,76 +85,76 @@ template <class G, G Shared::*M> void add_geod(const std::string& pre, const std
     o.d(l.GenPosition(true, l.Arc() * r.uniform(0, 1), Geodesic::ALL, lat2, lon2, azi2, s12, m12, M12, M21, S12));
     o.d(lat2); o.d(lon2); o.d(azi2); o.d(s12); o.d(m12); o.d(M12); o.d(M21); o.d(S12); });
   add(pre + ".accessors", cls, 0.3, true, [](const Shared* S, Rng&, Res& o, int pv) {
-    const G& g = S->*M; o.d(g.EquatorialRadius()); o.d(g.Flattening()); o.d(g.EllipsoidArea()); });
+    const G& g = (S->*M)(); o.d(g.EquatorialRadius()); o.d(g.Flattening()); o.d(g.EllipsoidArea()); });
 }
 
-template <class L, L Shared::*M> void add_line(const std::string& pre, const std::string& cls) {
+template <class L, Lazy<L> Shared::*M> void add_line(const std::string& pre, const std::string& cls) {
   add(pre + ".position.all", cls, 2, true, [](const Shared* S, Rng& r, Res& o, int pv) {
-    const L& l = S->*M; real lat2, lon2, azi2, m12, M12, M21, S12;
+    const L& l = (S->*M)(); real lat2, lon2, azi2, m12, M12, M21, S12;
     o.d(l.Position(gdist(r, l.EquatorialRadius()), lat2, lon2, azi2, m12, M12, M21, S12));
     o.d(lat2); o.d(lon2); o.d(azi2); o.d(m12); o.d(M12); o.d(M21); o.d(S12); });
   add(pre + ".position.overloads", cls, 1, true, [](const Shared* S, Rng& r, Res& o, int pv) {
-    const L& l = S->*M; real s = gdist(r, l.EquatorialRadius()), lat2, lon2, azi2, m12, M12, M21;
+    const L& l = (S->*M)(); real s = gdist(r, l.EquatorialRadius()), lat2, lon2, azi2, m12, M12, M21;
     o.d(l.Position(s, lat2, lon2)); o.d(lat2); o.d(lon2);
     o.d(l.Position(s, lat2, lon2, azi2)); o.d(azi2);
     o.d(l.Position(s, lat2, lon2, azi2, m12)); o.d(m12);
     o.d(l.Position(s, lat2, lon2, azi2, M12, M21)); o.d(M12); o.d(M21);
     o.d(l.Position(s, lat2, lon2, azi2, m12, M12, M21)); });
   add(pre + ".arcposition.all", cls, 1, true, [](const Shared* S, Rng& r, Res& o, int pv) {
-    const L& l = S->*M; real lat2, lon2, azi2, s12, m12, M12, M21, S12;
+    const L& l = (S->*M)(); real lat2, lon2, azi2, s12, m12, M12, M21, S12;
     l.ArcPosition(r.uniform(-720, 720), lat2, lon2, azi2, s12, m12, M12, M21, S12);
     o.d(lat2); o.d(lon2); o.d(azi2); o.d(s12); o.d(m12); o.d(M12); o.d(M21); o.d(S12); });
   add(pre + ".genposition.mask", cls, 1, true, [](const Shared* S, Rng& r, Res& o, int pv) {
-    const L& l = S->*M; bool arc = r.coin(); real s = arc ? r.uniform(-720, 720) : gdist(r, l.EquatorialRadius());
+    const L& l = (S->*M)(); bool arc = r.coin(); real s = arc ? r.uniform(-720, 720) : gdist(r, l.EquatorialRadius());
     real lat2 = -1, lon2 = -2, azi2 = -3, s12 = -4, m12 = -5, M12 = -6, M21 = -7, S12 = -8;
     o.d(l.GenPosition(arc, s, gmask(r), lat2, lon2, azi2, s12, m12, M12, M21, S12));
     o.d(lat2); o.d(lon2); o.d(azi2); o.d(s12); o.d(m12); o.d(M12); o.d(M21); o.d(S12); });
   add(pre + ".accessors", cls, 0.3, true, [](const Shared* S, Rng&, Res& o, int pv) {
-    const L& l = S->*M; o.d(l.Latitude()); o.d(l.Longitude()); o.d(l.Azimuth()); o.d(l.EquatorialAzimuth()); o.d(l.EquatorialArc());
+    const L& l = (S->*M)(); o.d(l.Latitude()); o.d(l.Longitude()); o.d(l.Azimuth()); o.d(l.EquatorialAzimuth()); o.d(l.EquatorialArc());
     o.d(l.Distance()); o.d(l.Arc()); o.i(l.Capabilities()); o.b(l.Init());
     real s, c; l.Azimuth(s, c); o.d(s); o.d(c); l.EquatorialAzimuth(s, c); o.d(s); o.d(c); });
 }
 
-template <Rhumb Shared::*M> void add_rhumb(const std::string& pre, const std::string& cls) {
+template <Lazy<Rhumb> Shared::*M> void add_rhumb(const std::string& pre, const std::string& cls) {
   add(pre + ".inverse", cls, 3, true, [](const Shared* S, Rng& r, Res& o, int pv) {
-    const Rhumb& h = S->*M; Pair p = gpair(r); real s12, azi12, S12;
+    const Rhumb& h = (S->*M)(); Pair p = gpair(r); real s12, azi12, S12;
     h.Inverse(p.lat1, p.lon1, p.lat2, p.lon2, s12, azi12, S12); o.d(s12); o.d(azi12); o.d(S12);
     h.Inverse(p.lat1, p.lon1, p.lat2, p.lon2, s12, azi12); o.d(s12); o.d(azi12); });
   add(pre + ".direct", cls, 3, true, [](const Shared* S, Rng& r, Res& o, int pv) {
-    const Rhumb& h = S->*M; real lat1 = glat(r), lon1 = glon(r), azi = gazi(r), s12 = gdist(r, h.EquatorialRadius()) / 3, lat2, lon2, S12;
+    const Rhumb& h = (S->*M)(); real lat1 = glat(r), lon1 = glon(r), azi = gazi(r), s12 = gdist(r, h.EquatorialRadius()) / 3, lat2, lon2, S12;
     h.Direct(lat1, lon1, azi, s12, lat2, lon2, S12); o.d(lat2); o.d(lon2); o.d(S12);
     h.Direct(lat1, lon1, azi, s12, lat2, lon2); o.d(lat2); o.d(lon2); });
   add(pre + ".gen.mask", cls, 1, true, [](const Shared* S, Rng& r, Res& o, int pv) {
-    const Rhumb& h = S->*M; Pair p = gpair(r); unsigned m = gmask(r);
+    const Rhumb& h = (S->*M)(); Pair p = gpair(r); unsigned m = gmask(r);
     real s12 = -1, azi12 = -2, S12 = -3, lat2 = -4, lon2 = -5;
     h.GenInverse(p.lat1, p.lon1, p.lat2, p.lon2, m, s12, azi12, S12); o.d(s12); o.d(azi12); o.d(S12);
     S12 = -3; h.GenDirect(p.lat1, p.lon1, gazi(r), gdist(r, h.EquatorialRadius()) / 3, m, lat2, lon2, S12); o.d(lat2); o.d(lon2); o.d(S12); });
   add(pre + ".line.position", cls, 1, true, [](const Shared* S, Rng& r, Res& o, int pv) {
-    const Rhumb& h = S->*M; RhumbLine l = h.Line(glat(r), glon(r), gazi(r)); real lat2, lon2, S12;
+    const Rhumb& h = (S->*M)(); RhumbLine l = h.Line(glat(r), glon(r), gazi(r)); real lat2, lon2, S12;
     for (int k = 0; k < 3; ++k) { l.Position(gdist(r, h.EquatorialRadius()) / 3, lat2, lon2, S12); o.d(lat2); o.d(lon2); o.d(S12); } });
   add(pre + ".accessors", cls, 0.3, true, [](const Shared* S, Rng&, Res& o, int pv) {
-    const Rhumb& h = S->*M; o.d(h.EquatorialRadius()); o.d(h.Flattening()); o.d(h.EllipsoidArea()); });
+    const Rhumb& h = (S->*M)(); o.d(h.EquatorialRadius()); o.d(h.Flattening()); o.d(h.EllipsoidArea()); });
 }
-template <RhumbLine Shared::*M> void add_rhumbline(const std::string& pre, const std::string& cls) {
+template <Lazy<RhumbLine> Shared::*M> void add_rhumbline(const std::string& pre, const std::string& cls) {
   add(pre + ".position", cls, 2, true, [](const Shared* S, Rng& r, Res& o, int pv) {
-    const RhumbLine& l = S->*M; real lat2, lon2, S12; real s = gdist(r, l.EquatorialRadius()) / 3;
+    const RhumbLine& l = (S->*M)(); real lat2, lon2, S12; real s = gdist(r, l.EquatorialRadius()) / 3;
     l.Position(s, lat2, lon2, S12); o.d(lat2); o.d(lon2); o.d(S12);
     l.Position(s, lat2, lon2); o.d(lat2); o.d(lon2); });
   add(pre + ".genposition.mask", cls, 1, true, [](const Shared* S, Rng& r, Res& o, int pv) {
-    const RhumbLine& l = S->*M; real lat2 = -1, lon2 = -2, S12 = -3;
+    const RhumbLine& l = (S->*M)(); real lat2 = -1, lon2 = -2, S12 = -3;
     l.GenPosition(gdist(r, l.EquatorialRadius()) / 3, gmask(r), lat2, lon2, S12); o.d(lat2); o.d(lon2); o.d(S12);
     o.d(l.Latitude()); o.d(l.Longitude()); o.d(l.Azimuth()); o.d(l.EquatorialRadius()); o.d(l.Flattening()); });
 }
 
-template <class PA, PA Shared::*M> void add_poly(const std::string& pre, const std::string& cls) {
+template <class PA, Lazy<PA> Shared::*M> void add_poly(const std::string& pre, const std::string& cls) {
   add(pre + ".compute", cls, 1, true, [](const Shared* S, Rng& r, Res& o, int pv) {
-    const PA& p = S->*M; real per = -1, area = -2; o.i(p.Compute(r.coin(), r.coin(), per, area)); o.d(per); o.d(area);
+    const PA& p = (S->*M)(); real per = -1, area = -2; o.i(p.Compute(r.coin(), r.coin(), per, area)); o.d(per); o.d(area);
     real la, lo; p.CurrentPoint(la, lo); o.d(la); o.d(lo); o.i(p.NumberPoints()); o.b(p.Polyline());
     o.d(p.EquatorialRadius()); o.d(p.Flattening()); });
   add(pre + ".testpoint", cls, 1, true, [](const Shared* S, Rng& r, Res& o, int pv) {
-    const PA& p = S->*M; real per = -1, area = -2; o.i(p.TestPoint(glat(r), glon(r), r.coin(), r.coin(), per, area)); o.d(per); o.d(area); });
+    const PA& p = (S->*M)(); real per = -1, area = -2; o.i(p.TestPoint(glat(r), glon(r), r.coin(), r.coin(), per, area)); o.d(per); o.d(area); });
   add(pre + ".testedge", cls, 1, true, [](const Shared* S, Rng& r, Res& o, int pv) {
-    const PA& p = S->*M; real per = -1, area = -2; o.i(p.TestEdge(gazi(r), gdist(r, p.EquatorialRadius()) / 4, r.coin(), r.coin(), per, area)); o.d(per); o.d(area); });
+    const PA& p = (S->*M)(); real per = -1, area = -2; o.i(p.TestEdge(gazi(r), gdist(r, p.EquatorialRadius()) / 4, r.coin(), r.coin(), per, area)); o.d(per); o.d(area); });
 }
 
 inline void register_a() {
@@ -185,18 +185,18 @@ inline void register_a() {
   add("gnomonic.forward", "Gnomonic", 1, true, [](const Shared* S, Rng& r, Res& o, int pv) {
     real x, y, azi, rk; VAR(gnv).Forward(glat(r), glon(r), glat(r), glon(r), x, y, azi, rk); o.d(x); o.d(y); o.d(azi); o.d(rk); });
   add("gnomonic.reverse", "Gnomonic", 1, true, [](const Shared* S, Rng& r, Res& o, int pv) {
-    real lat, lon, azi, rk; real a = S->P.a; VAR(gnv).Reverse(glat(r), glon(r), a * r.uniform(-3, 3), a * r.uniform(-3, 3), lat, lon, azi, rk);
+    real lat, lon, azi, rk; real a = VAR(gnv).EquatorialRadius(); VAR(gnv).Reverse(glat(r), glon(r), a * r.uniform(-3, 3), a * r.uniform(-3, 3), lat, lon, azi, rk);
     o.d(lat); o.d(lon); o.d(azi); o.d(rk); o.d(VAR(gnv).EquatorialRadius()); o.d(VAR(gnv).Flattening()); });
   add("azeq.forward", "AzimuthalEquidistant", 1, true, [](const Shared* S, Rng& r, Res& o, int pv) {
     real x, y, azi, rk; VAR(aev).Forward(glat(r), glon(r), glat(r), glon(r), x, y, azi, rk); o.d(x); o.d(y); o.d(azi); o.d(rk); });
   add("azeq.reverse", "AzimuthalEquidistant", 1, true, [](const Shared* S, Rng& r, Res& o, int pv) {
-    real lat, lon, azi, rk; real a = S->P.a; VAR(aev).Reverse(glat(r), glon(r), a * r.uniform(-3, 3), a * r.uniform(-3, 3), lat, lon, azi, rk);
+    real lat, lon, azi, rk; real a = VAR(aev).EquatorialRadius(); VAR(aev).Reverse(glat(r), glon(r), a * r.uniform(-3, 3), a * r.uniform(-3, 3), lat, lon, azi, rk);
     o.d(lat); o.d(lon); o.d(azi); o.d(rk); o.d(VAR(aev).EquatorialRadius()); o.d(VAR(aev).Flattening()); });
   add("cassini.forward", "CassiniSoldner", 1, true, [](const Shared* S, Rng& r, Res& o, int pv) {
     real x, y, azi, rk; VAR(csv).Forward(glat(r), glon(r), x, y, azi, rk); o.d(x); o.d(y); o.d(azi); o.d(rk);
     VAR(csv).Forward(glat(r), glon(r), x, y); o.d(x); o.d(y); });
   add("cassini.reverse", "CassiniSoldner", 1, true, [](const Shared* S, Rng& r, Res& o, int pv) {
-    real lat, lon, azi, rk; real a = S->P.a; VAR(csv).Reverse(a * r.uniform(-1.5, 1.5), a * r.uniform(-3, 3), lat, lon, azi, rk);
+    real lat, lon, azi, rk; real a = VAR(csv).EquatorialRadius(); VAR(csv).Reverse(a * r.uniform(-1.5, 1.5), a * r.uniform(-3, 3), lat, lon, azi, rk);
     o.d(lat); o.d(lon); o.d(azi); o.d(rk); o.d(VAR(csv).LatitudeOrigin()); o.d(VAR(csv).LongitudeOrigin()); o.b(VAR(csv).Init()); });
 
   add_variant("gnomonic.", "gnomonicx.", "Gnomonic(Geodesic exact=true)", 1);
@@ -205,20 +205,20 @@ inline void register_a() {
 
   // Intersect: every const entry point; the counters (NumInverse ...) are excluded by the property
   add("intersect.closest", "Intersect", 1, true, [](const Shared* S, Rng& r, Res& o, int pv) {
-    int c = -9; auto p = S->inter.Closest(r.uniform(-80, 80), glon(r), gazi(r), r.uniform(-80, 80), glon(r), gazi(r), Intersect::Point(0, 0), &c);
+    int c = -9; auto p = S->inter().Closest(r.uniform(-80, 80), glon(r), gazi(r), r.uniform(-80, 80), glon(r), gazi(r), Intersect::Point(0, 0), &c);
     o.d(p.first); o.d(p.second); o.i(c); });
   add("intersect.closest.lines", "Intersect", 1, true, [](const Shared* S, Rng& r, Res& o, int pv) {
-    int c = -9; real d = S->P.a; auto p = S->inter.Closest(S->glX, S->glY, Intersect::Point(d * r.uniform(-2, 2), d * r.uniform(-2, 2)), &c);
+    int c = -9; real d = S->P.a; auto p = S->inter().Closest(S->glX(), S->glY(), Intersect::Point(d * r.uniform(-2, 2), d * r.uniform(-2, 2)), &c);
     o.d(p.first); o.d(p.second); o.i(c); });
   add("intersect.segment", "Intersect", 1, true, [](const Shared* S, Rng& r, Res& o, int pv) {
-    int seg = -9, c = -9; auto p = S->inter.Segment(r.uniform(-80, 80), glon(r), r.uniform(-80, 80), glon(r), r.uniform(-80, 80), glon(r), r.uniform(-80, 80), glon(r), seg, &c);
+    int seg = -9, c = -9; auto p = S->inter().Segment(r.uniform(-80, 80), glon(r), r.uniform(-80, 80), glon(r), r.uniform(-80, 80), glon(r), r.uniform(-80, 80), glon(r), seg, &c);
     o.d(p.first); o.d(p.second); o.i(seg); o.i(c); });
   add("intersect.next", "Intersect", 1, true, [](const Shared* S, Rng& r, Res& o, int pv) {
-    int c = -9; auto p = S->inter.Next(r.uniform(-80, 80), glon(r), gazi(r), gazi(r), &c); o.d(p.first); o.d(p.second); o.i(c); });
+    int c = -9; auto p = S->inter().Next(r.uniform(-80, 80), glon(r), gazi(r), gazi(r), &c); o.d(p.first); o.d(p.second); o.i(c); });
   add("intersect.all", "Intersect", 0.5, true, [](const Shared* S, Rng& r, Res& o, int pv) {
     std::vector<int> c; real d = S->P.a * r.uniform(0.5, 4);
-    auto v = r.coin() ? S->inter.All(r.uniform(-80, 80), glon(r), gazi(r), r.uniform(-80, 80), glon(r), gazi(r), d, c)
-                      : S->inter.All(S->glX, S->glY, d, c, Intersect::Point(0, 0));
+    auto v = r.coin() ? S->inter().All(r.uniform(-80, 80), glon(r), gazi(r), r.uniform(-80, 80), glon(r), gazi(r), d, c)
+                      : S->inter().All(S->glX(), S->glY(), d, c, Intersect::Point(0, 0));
     o.i((long long)v.size()); for (auto& p : v) { o.d(p.first); o.d(p.second); } for (int k : c) o.i(k); });
 }
 
